@@ -135,3 +135,22 @@ Theorem C19_malloc_blocks_disjoint : forall cur ns, heap_ok cur -> Forall (fun n
   Forall (fun b => heap_cell < fst b /\ fst b + snd b < heap_end) (alloc_seq cur ns).
 Proof. exact alloc_seq_disjoint. Qed.
 Print Assumptions C19_malloc_blocks_disjoint.
+
+(* malloc, stack convention, at any address: the same bump allocator; request and result in the frame cell
+   FP+3; R1..R10, SP come back unchanged; only the frame cells FP+0..FP+6 and the heap pointer are written *)
+From Hera.Proofs Require Import C19_MallocStack.
+Theorem C19_malloc_stack_refines_alloc : forall base s p q,
+  0 <= base -> base + 41 < 65536 -> List.length (regs s) = 16%nat -> pc s = base -> wf_mem (mem s) ->
+  getreg s 0 = 0 -> 0 <= getreg s 15 -> getreg s 15 + 3 < 65536 ->
+  word (getreg s 1) -> word (getreg s 2) -> word (getreg s 3) -> word (getreg s 12) -> word (getreg s 13) ->
+  let a k := (getreg s 14 + k) mod 65536 in
+  (forall k, 0 <= k <= 6 -> a k <> heap_cell) ->
+  alloc (mem_read (mem s) heap_cell) (mem_read (mem s) (a 3)) = Some (p, q) ->
+  exists n s', run_at base (malloc_stack_code base) n s = Some s' /\
+    mem_read (mem s') (a 3) = p /\ mem_read (mem s') heap_cell = q /\
+    (forall b, 0 <= b -> b <> heap_cell -> (forall k, 0 <= k <= 6 -> b <> a k) -> mem_read (mem s') b = mem_read (mem s) b) /\
+    getreg s' 1 = getreg s 1 /\ getreg s' 2 = getreg s 2 /\ getreg s' 3 = getreg s 3 /\
+    pc s' = getreg s 13 /\ getreg s' 14 = getreg s 12 /\ getreg s' 15 = getreg s 15 /\
+    (forall j, 4 <= j <= 10 -> getreg s' j = getreg s j).
+Proof. exact malloc_stack_contract. Qed.
+Print Assumptions C19_malloc_stack_refines_alloc.
